@@ -6,9 +6,15 @@ package extractfam
 
 import (
 	"context"
+	"flag"
 	"fmt"
+	"io/fs"
+	"os"
+	"path/filepath"
 	"sort"
+	"strconv"
 	"strings"
+	"testing"
 	"testing/fstest"
 	"time"
 
@@ -28,7 +34,9 @@ import (
 	"github.com/google/osv-scalibr/extractor/filesystem/os/dpkg"
 	scalibrfs "github.com/google/osv-scalibr/fs"
 	"github.com/google/osv-scalibr/inventory"
+	"pgregory.net/rapid"
 
+	"verifharness/internal/ev"
 	"verifharness/internal/layouts"
 )
 
@@ -73,7 +81,7 @@ type fileAPI struct {
 }
 
 func (f fileAPI) Path() string { return f.path }
-func (f fileAPI) Stat() (fsFileInfo, error) {
+func (f fileAPI) Stat() (fs.FileInfo, error) {
 	return f.fsys.Stat(f.path)
 }
 
@@ -142,4 +150,48 @@ func clip(b []byte, n int) string {
 		return string(b[:n]) + "…"
 	}
 	return string(b)
+}
+
+// checkRapid is ev.Check for a property with several legs of different case types: known
+// witnesses are replayed only when they decode into a case this leg owns.
+func checkRapid[C any](t *testing.T, c *ev.Collector, checks int, gen func(*rapid.T) C, prop0 func(C) (ev.Outcome, error), mine func(C) bool) {
+	t.Helper()
+	prop := ev.Safe(prop0)
+	completed := false
+	defer func() { c.Flush(completed) }()
+	if ev.HandleReplay(t, c, prop0) {
+		completed = true
+		return
+	}
+	c.SetLeg(t.Name())
+	for _, k := range c.KnownList() {
+		if k.Witness == "" {
+			continue
+		}
+		root := os.Getenv("VERIF_ROOT")
+		if root == "" {
+			root = "/verif"
+		}
+		var cs C
+		if err := ev.ReplayCase(filepath.Join(root, k.Witness), &cs); err != nil || !mine(cs) {
+			continue
+		}
+		if _, err := prop(cs); err != nil {
+			fmt.Printf("KNOWN-FINDING: property=%s %s\n", k.Property, k.What)
+		} else {
+			c.Note("known finding %s: witness no longer fails", k.Class)
+		}
+	}
+	_ = flag.Set("rapid.checks", strconv.Itoa(checks))
+	_ = flag.Set("rapid.seed", strconv.FormatUint(ev.Seed(), 10))
+	_ = flag.Set("rapid.nofailfile", "true")
+	rapid.Check(t, func(rt *rapid.T) {
+		cs := gen(rt)
+		o, err := prop(cs)
+		c.Record(cs, o, err)
+		if err != nil {
+			rt.Fatalf("%v", err)
+		}
+	})
+	completed = true
 }
